@@ -19,7 +19,7 @@ def stepLine (st : DState) (line : String) : DState × String :=
   | tok :: _ =>
     if tok.startsWith "ck." then
       (st, (compkeyStep st.addrs toks).getD "bad-op")
-    else if tok = "reset" || tok = "now" || tok.startsWith "aol." then
+    else if tok = "reset" || tok = "now" || tok.startsWith "aol." || tok.startsWith "mon.c01." then
       match aolStep st.addrs st.aol toks with
       | some (d, ans) => ({ st with aol := d }, ans)
       | none => (st, "bad-op")
